@@ -12,6 +12,10 @@ mod c02 {
         kani::assume(k < 3);
         match k { 0 => Ev::Some(kani::any(), Tr::leaf(id)), 1 => Ev::None, _ => Ev::Err(kani::any()) }
     }
+    /// input whose category is fixed by the job's concrete skeleton; timestamp and error code stay symbolic
+    fn ev_k(k: u32, id: u64) -> Ev<Tr> {
+        match k { 0 => Ev::Some(kani::any(), Tr::leaf(id)), 1 => Ev::None, _ => Ev::Err(kani::any()) }
+    }
     fn sym_evb() -> Ev<bool> {
         let k: u8 = kani::any();
         kani::assume(k < 3);
@@ -22,52 +26,8 @@ mod c02 {
     }
     fn dr<T: Copy + 'static>(g: &mut One<T>) -> Reference<dyn Getter<T, E>> { dyn_ref::<T, One<T>>(g) }
 
-    // ---------------- n-ary sum / product / newest-of
-    fn nary<const N: usize>() {
-        let mut gs: [One<Tr>; N] = core::array::from_fn(|i| One(sym_ev(i as u64 + 1)));
-        let evs: [Ev<Tr>; N] = core::array::from_fn(|i| gs[i].0);
-        let p = gs.as_mut_ptr();
-        let mk = || -> [Reference<dyn Getter<Tr, E>>; N] { core::array::from_fn(|i| unsafe { Reference::from_ptr(p.add(i) as *mut dyn Getter<Tr, E>) }) };
-        // reference: first error in input order; otherwise fold the present values in input order
-        let mut first_err: Option<E> = None;
-        let mut i = 0;
-        while i < N { if first_err.is_none() { if let Ev::Err(e) = evs[i] { first_err = Some(e); } } i += 1; }
-        let mut acc_s: Option<(i64, Tr)> = None;
-        let mut acc_p: Option<(i64, Tr)> = None;
-        let mut newest: Option<(i64, Tr)> = None;
-        let mut i = 0;
-        while i < N {
-            if let Ev::Some(t, v) = evs[i] {
-                acc_s = Some(match acc_s { None => (t, v), Some((tt, vv)) => (max_t(tt, t), Tr::mix(vv, v, 1)) });
-                acc_p = Some(match acc_p { None => (t, v), Some((tt, vv)) => (max_t(tt, t), Tr::mix(vv, v, 3)) });
-                newest = Some(match newest { None => (t, v), Some((tt, vv)) => if t > tt { (t, v) } else { (tt, vv) } });
-            }
-            i += 1;
-        }
-        let want = |acc: Option<(i64, Tr)>| -> Output<Tr, E> {
-            match first_err { Some(e) => Err(Error::Other(e)), None => Ok(acc.map(|(t, v)| Datum::new(Time(t), v))) }
-        };
-        let s = SumStream::new(mk());
-        let g = s.get();
-        vk_assert!(g == want(acc_s), "C02.sum_n.contract");
-        vk_assert!(s.get() == g, "C02.sum_n.get_is_pure");
-        let pr = ProductStream::new(mk());
-        let g = pr.get();
-        vk_assert!(g == want(acc_p), "C02.product_n.contract");
-        vk_assert!(pr.get() == g, "C02.product_n.get_is_pure");
-        // newest-of skips errors and absents, never errors, keeps the earlier input on ties
-        let l = Latest::new(mk());
-        let g = l.get();
-        vk_assert!(g == Ok(newest.map(|(t, v)| Datum::new(Time(t), v))), "C02.latest.contract");
-        vk_assert!(l.get() == g, "C02.latest.get_is_pure");
-        vk_end!();
-    }
-    #[kani::proof] #[kani::unwind(3)] fn c02_nary_1() { nary::<1>(); }
-    #[kani::proof] #[kani::unwind(4)] fn c02_nary_2() { nary::<2>(); }
-    #[kani::proof] #[kani::unwind(5)] fn c02_nary_3() { nary::<3>(); }
-    #[kani::proof] #[kani::unwind(6)] fn c02_nary_4() { nary::<4>(); }
-    #[kani::proof] #[kani::unwind(7)] fn c02_nary_5() { nary::<5>(); }
-
+    // ---------------- n-ary sum / product / newest-of (one generated harness per arity; explicit inputs, no pointer arithmetic)
+@NARY@
     // ---------------- binary arithmetic: Sum2 / Product2 / Difference / Quotient
     fn bin_ref(a: Ev<Tr>, b: Ev<Tr>, op: u64, pass_second_when_first_absent: bool) -> Output<Tr, E> {
         // first error in input order (for Sum2/Product2 the second input is not read after a first error)
@@ -113,8 +73,8 @@ mod c02 {
     #[kani::proof]
     #[kani::stub(f32::powf, mix_powf)]
     fn c02_exponent() {
-        let mk = || -> Ev<f32> { let k: u8 = kani::any(); kani::assume(k < 3); match k { 0 => Ev::Some(kani::any(), kani::any()), 1 => Ev::None, _ => Ev::Err(kani::any()) } };
-        let (a, b) = (mk(), mk());
+        let mk = |k: u32| -> Ev<f32> { match k { 0 => Ev::Some(kani::any(), kani::any()), 1 => Ev::None, _ => Ev::Err(kani::any()) } };
+        let (a, b) = (mk(sk(0)), mk(sk(1)));
         let (mut ga, mut gb) = (One(a), One(b));
         let x = ExponentStream::new(ptr_ref(&mut ga), ptr_ref(&mut gb));
         let g = x.get();
@@ -227,18 +187,77 @@ mod c02 {
 '''
 
 
+def nary_fn(n, kind):
+    gs = "\n".join("        let e%d = sym_ev(%d); let mut g%d = One(e%d);" % (i, i + 1, i, i) for i in range(n))
+    evs = ", ".join("e%d" % i for i in range(n))
+    refs = ", ".join("dr(&mut g%d)" % i for i in range(n))
+    body = {"sum": NARY_SUM, "product": NARY_SUM.replace("SumStream", "ProductStream").replace("Tr::mix(vv, v, 1)", "Tr::mix(vv, v, 3)").replace("C02.sum_n", "C02.product_n"),
+            "latest": NARY_LATEST}[kind]
+    pure = 'vk_assert!(s.get() == g, "C02.%s_n.get_is_pure");' % kind if n <= 2 else ""
+    return (NARY_HEAD + body).replace("@PURE@", pure).replace("@K@", kind).replace("@N@", str(n)).replace("@GS@", gs).replace("@EVS@", evs).replace("@REFS@", refs).replace("@UNW@", str(n + 2))
+
+
+NARY_HEAD = r'''    #[kani::proof]
+    #[kani::unwind(@UNW@)]
+    fn c02_@K@_@N@() {
+        const N: usize = @N@;
+@GS@
+        let evs: [Ev<Tr>; N] = [@EVS@];
+'''
+NARY_SUM = r'''        // reference: first error in input order; otherwise fold the present values in input order
+        let mut first_err: Option<E> = None;
+        let mut i = 0;
+        while i < N { if first_err.is_none() { if let Ev::Err(e) = evs[i] { first_err = Some(e); } } i += 1; }
+        let mut acc: Option<(i64, Tr)> = None;
+        let mut i = 0;
+        while i < N {
+            if let Ev::Some(t, v) = evs[i] {
+                acc = Some(match acc { None => (t, v), Some((tt, vv)) => (max_t(tt, t), Tr::mix(vv, v, 1)) });
+            }
+            i += 1;
+        }
+        let want: Output<Tr, E> = match first_err { Some(e) => Err(Error::Other(e)), None => Ok(acc.map(|(t, v)| Datum::new(Time(t), v))) };
+        let s = SumStream::new([@REFS@]);
+        let g = s.get();
+        vk_assert!(g == want, "C02.sum_n.contract");
+        @PURE@
+        vk_end!();
+        core::mem::forget(s);
+    }
+'''
+NARY_LATEST = r'''        // newest-of skips errors and absents, never errors, keeps the earlier input on ties
+        let mut newest: Option<(i64, Tr)> = None;
+        let mut i = 0;
+        while i < N {
+            if let Ev::Some(t, v) = evs[i] {
+                newest = Some(match newest { None => (t, v), Some((tt, vv)) => if t > tt { (t, v) } else { (tt, vv) } });
+            }
+            i += 1;
+        }
+        let s = Latest::new([@REFS@]);
+        let g = s.get();
+        vk_assert!(g == Ok(newest.map(|(t, v)| Datum::new(Time(t), v))), "C02.latest.contract");
+        @PURE@
+        vk_end!();
+        core::mem::forget(s);
+    }
+'''
+
+
 def spec(ctx):
     ar = [1, 2, 3, 4] if ctx.quick else [1, 2, 3, 4, 5]
-    hs = [Harness("c02_nary_%d" % n, "e1", unwind=n + 2, clause="SumStream/ProductStream/Latest with %d inputs: all 3^%d category patterns x all timestamps" % (n, n)) for n in ar]
+    import itertools
+    kinds = ["sum", "product", "latest"]
+    hs = [Harness("c02_%s_%d" % (k, n), "e1", unwind=n + 2, timeout=300, clause="%s stream with %d inputs: all 3^%d category patterns x all timestamps and error codes" % (k, n, n)) for n in ar for k in kinds]
     hs += [
         Harness("c02_binary", "e1", unwind=4, clause="Sum2/Product2 (agree with n-ary), Difference, Quotient"),
-        Harness("c02_exponent", "e1", stubs=True, clause="ExponentStream (powf stubbed by an injective mixer)"),
+        Harness("c02_exponent", "e2", stubs=True, skeletons=list(itertools.product([0, 1, 2], repeat=2)), clause="ExponentStream (powf stubbed by an injective mixer)"),
         Harness("c02_flow", "e1", clause="IfStream, IfElseStream"),
         Harness("c02_expirer_converters", "e1", clause="Expirer, NoneToError, NoneToValue, NoneGetter, ConstantGetter"),
         Harness("c02_logic", "e1", clause="And/Or/Not strong-Kleene tables, timestamps, De Morgan duality"),
     ]
     return {
-        "crates": [{"rust": RUST, "harnesses": hs, "stubbing": True}],
+        "crates": [{"rust": RUST.replace("@NARY@", "\n".join(nary_fn(n, k) for n in ar for k in kinds)), "harnesses": hs, "stubbing": True}],
         "functions": ["SumStream", "Sum2", "DifferenceStream", "ProductStream", "Product2", "QuotientStream", "ExponentStream", "Latest", "Expirer",
                       "IfStream", "IfElseStream", "NoneToError", "NoneToValue", "AndStream", "OrStream", "NotStream", "NoneGetter", "ConstantGetter (Getter::get of each)"],
         "bounds": {"arity of n-ary streams": ar, "input categories": "every assignment of Err(e)/None/Some to every input, e any u8 (symbolic)",
